@@ -272,6 +272,11 @@ const TEXT_TEMPLATES: &[(&str, &str, &[(&str, &str)])] = &[
         &[],
     ),
     (
+        "lambdas-in-brackets-with-user-type-results",
+        "print: fn *X -> void : external\nP :: blob { x: int, y: int }\nE :: enum\n    A int,\n    B,\nend\nOpt :: enum(*T)\n    Some *T,\n    Non,\nend\nap :: fn f: fn int -> *R, v: int -> *R\n    f(v)\nend\nstart :: fn do\n    p :: ap(fn a{{: int||}} ->{{ P||}}\n        q :: P { x: a, y: 2 }\n        q\n    end, 1)\n    e :: ap(fn a{{: int||}} ->{{ E||}}\n        q :: E.A a\n        q\n    end, 2)\n    o :: ap(fn a{{: int||}} ->{{ Opt(int)||}}\n        q :: Opt.Some a\n        q\n    end, 3)\n    l :: (fn a{{: int||}} ->{{ P||}}\n        q :: P { x: a, y: 3 }\n        q\n    end, 0)\n    print(p.x + p.y)\n    print(e)\n    print(o)\n    print(l[0](4).x)\nend\n",
+        &[],
+    ),
+    (
         "types-qualified-by-one-and-two-namespaces",
         "use geometry\nuse geometry as geo\nfrom geometry use Size\nprint: fn *X -> void : external\ngp{{: geometry.shapes.Point : || :: }}geometry.origin()\nstart :: fn do\n    p{{: geometry.shapes.Point = || := }}geometry.origin()\n    q{{: geometry.Size = || := }}geometry.unit()\n    r{{: geo.shapes.Point : || :: }}geo.origin()\n    t{{: Size : || :: }}geometry.unit()\n    w :: fn a{{: geometry.shapes.Point||}}, b{{: geo.Size||}} -> a.x + b.w end\n    print(p.x + q.w + r.y + t.w + w(p, q) + gp.x)\nend\n",
         &[("/p/geometry.sy", "use shapes\nSize :: blob { w: int }\norigin :: fn -> shapes.Point\n    shapes.Point { x: 1, y: 2 }\nend\nunit :: fn -> Size\n    Size { w: 3 }\nend\n"), ("/p/shapes.sy", "Point :: blob { x: int, y: int }\n")],
@@ -434,7 +439,7 @@ pub fn run(run: &mut Run) {
         check_text_templates(&mut acc);
         run.stats.merge(acc);
     }
-    run.rule = "base programs: for every type (int, float, bool, str, tuple, blob, enum, list) and every expression of that type with at most n operator nodes, a program with annotation sites on a global constant, a global variable, two parameters, a return type, a local in a function, two locals in start (thorough: also a closure's parameter and return type); every subset of the 8 (10) sites is compiled; plus four surface templates (one of them a three-file project whose annotations name types through one and two namespaces, aliases and from-imports) in which one-line functions and branches with `<!>` / `<=>`, strings spanning lines, comments and non-ASCII text follow annotation sites on the same line (all subsets of their 7 / 4 / 4 sites); non-trivial = base accepted; distinct by base text".into();
+    run.rule = "base programs: for every type (int, float, bool, str, tuple, blob, enum, list) and every expression of that type with at most n operator nodes, a program with annotation sites on a global constant, a global variable, two parameters, a return type, a local in a function, two locals in start (thorough: also a closure's parameter and return type); every subset of the 8 (10) sites is compiled; plus five surface templates (lambdas with user-type results inside call arguments and list literals, one a three-file project whose annotations name types through one and two namespaces, aliases and from-imports) in which one-line functions and branches with `<!>` / `<=>`, strings spanning lines, comments and non-ASCII text follow annotation sites on the same line (all subsets of their 7 / 4 / 4 sites); non-trivial = base accepted; distinct by base text".into();
     run.bounds = json!({"max_expression_size": if thorough {2} else {1}, "sites": if thorough {"10 for size<=1, 8 for size 2"} else {"8"}});
     run.assumptions = vec![
         "annotations are placed with the types the generator constructed the terms at (type-directed generation), so every annotation is correct".into(),
